@@ -6,7 +6,7 @@ TYPE_POOL = [("A", 0.47, 2.0, 72.0), ("B", 0.41, 2.5, 54.0), ("C", 0.62, 1.5, 72
 
 
 def gen_residue(rng, resname, tnames, kind=None, max_atoms=4):
-    kind = kind or rng.choice(["single", "single", "chain", "chain", "branch", "vs2", "vsn", "chiral"])
+    kind = kind or rng.choice(["single", "single", "chain", "chain", "branch", "vs2", "vsn", "chiral", "vs1"])
     atoms, bonds, angles, vs = [], [], [], []
 
     def atom(name, mass="type"):
@@ -29,6 +29,13 @@ def gen_residue(rng, resname, tnames, kind=None, max_atoms=4):
         atom("V2", mass=0.0)
         bonds.append((0, 1, 0.35, 5000))
         vs.append(("virtual_sites2", [2, 0, 1], ["1", "%.3f" % rng.choice([0.5, 0.3, 0.7])]))
+    elif kind == "vs1":
+        # a virtual site on top of one atom (the CA site of Martini 3 proteins): two particles at the same place
+        atom("X0")
+        atom("X1")
+        atom("V2", mass=0.0)
+        bonds.append((0, 1, 0.33, 5000))
+        vs.append(("virtual_sitesn", [2, 0], ["1"]))
     elif kind == "vsn":
         for i in range(3):
             atom("X%d" % i)
